@@ -4,10 +4,12 @@ import sys, json, os
 sys.path.insert(0, os.path.dirname(os.path.dirname(os.path.abspath(__file__))))
 from vlib import extract, mir
 names = set()
+mods = set()
 for c in extract.CONFIGS:
     d, m = extract.extract(c)
+    mods.update(d.get("mods", []))
     for f in d["fns"]:
         names.add(f["path"]); names.add(mir.strip_generics(f["path"]))
-json.dump({"comment": "function inventory of the reference tree, all five configurations", "functions": sorted(names)},
+json.dump({"comment": "function inventory of the reference tree, all configurations", "functions": sorted(names), "modules": sorted(mods)},
           open(os.path.join(os.path.dirname(os.path.dirname(os.path.abspath(__file__))), "tables", "known_fns.json"), "w"), indent=0)
 print(len(names), "functions")
